@@ -100,8 +100,11 @@ impl Frame {
                 // Parse the array length and try convert it to u64
                 let len = get_integer(reader)?;
                 let len = len.try_into().map_err(|_| Error::BadEncoding)?;
-                // Recursively parse each element of the array
-                let mut items = Vec::with_capacity(len);
+                // Recursively parse each element of the array. Every element takes at least one
+                // byte, so never reserve more slots than there are bytes left: the length prefix
+                // is untrusted and may be as large as i64::MAX.
+                let len: usize = len;
+                let mut items = Vec::with_capacity(len.min(reader.remaining()));
                 for _ in 0..len {
                     items.push(Frame::parse(reader)?);
                 }
